@@ -3787,7 +3787,9 @@ def num6(units, R, fn_name='parse_number'):
                 ds_ = [d_['init'] for d_ in fn.locals() if d_['d'] == y['d'] and 'init' in d_ and const_val(d_['init']) is None]
                 ds_ += [a_['r'] for a_ in assignments(fn) if is_ref(a_['l']) and strip_casts(a_['l'])['d'] == y['d'] and a_['op'] == '=' and
                         const_val(a_['r']) is None]
-                if ds_ and all(about_end(d_, depth + 1) for d_ in ds_):
+                # (only a comparison counts: the conversion call itself mentions the end pointer too, and its result is the number)
+                if ds_ and all(strip_casts(d_).get('k') in ('bin', 'un') and not any(z.get('k') == 'call' for z in walk(d_)) and
+                               about_end(d_, depth + 1) for d_ in ds_):
                     return True
         return False
 
